@@ -496,7 +496,7 @@ def _numerically_nonzero(t) -> bool:
 
 def _has_array_structure(t) -> bool:
     for n in sp.preorder_traversal(t):
-        if fname(n) in ("store", "roll", "diff", "slc", "tabulate", "loopsum", "expand_dims", "arange", "cumsum"):
+        if fname(n) in ("store", "roll", "diff", "slc", "tabulate", "loopsum", "expand_dims", "arange", "cumsum", "concatenate"):
             return True
     return False
 
